@@ -62,7 +62,10 @@ def normalize(binding, sitetab, path, out, stats=None):
 def static_check(binding, sites_list):
     """compare the pinned per-function operation tables with the current source; returns list of differences"""
     cur = {}
+    calls = set("call." + c for c in binding.get("pinned_calls", []))
     for s in sites_list:
+        if s["op"].startswith("call.") and s["op"] not in calls:
+            continue   # call pseudo-sites are opt-in per binding
         cur.setdefault(f'{s["file"]}|{s["fn"]}', []).append([s["recv"], s["op"], ",".join(s["orderings"])])
     diffs = []
     for fn, exp in binding.get("pinned", {}).items():
